@@ -292,66 +292,80 @@ def check(col, prog, tier, profile, fixture=None):
     if ft is not None:
         col.ok("A1" + sfx, ft.loc(), "%s|expected-impure" % fk(ft), "from_time reads the clock (the only impure constructor, by design)", nontrivial=False)
 
-    # ---------------- A2
-    I = util.analyse(shuffle)
-    vpl = ("deref", ("param", 2, I.names.get(2)))
-    backs = [s for l in I.backedge_states.values() for s in l]
-    writes_ok = True
-    shape_ok = False
-    for st in I.all_end_states():
-        for e in st.event_list():
-            if e.kind == "store" and any(s == vpl for s in [e.place] + list(subterms(e.place))):
-                writes_ok = False
-            if e.kind == "call" and e.args and any(a == ("ref", vpl) for a in e.args):
-                ty = e.extra["argtys"][list(e.args).index(("ref", vpl))]
-                if ty.startswith("&mut") and e.extra.get("name") != "swap":
+    # ---------------- A2: the provided method and every override of it in an impl of Rand
+    shuffles = [shuffle] + [b_ for b_ in crate.bodies if not b_.is_closure and b_.name == "shuffle" and b_.key != shuffle.key and str((crate.impl_of(b_) or {}).get("trait") or "").endswith("Rand")]
+    default_shuffle = shuffle
+    for shuffle in shuffles:
+        I = util.analyse(shuffle)
+        vpl = ("deref", ("param", 2, I.names.get(2)))
+        if shuffle.key != default_shuffle.key and not I.loops:
+            # a forwarding impl (`impl<G: Rand> Rand for &mut G { fn shuffle(..) { (**self).shuffle(v) } }`): one call of
+            # Rand::shuffle on the same slice and nothing else touches it; the implementation forwarded to is judged itself
+            fwd_ok = bool(I.final_states)
+            for st_ in I.final_states:
+                cs_ = [e for e in st_.event_list() if e.kind == "call" and e.extra.get("name") != "deref"]
+                fwd_ok = fwd_ok and len(cs_) == 1 and cs_[0].extra.get("name") == "shuffle" and (cs_[0].extra.get("trait") or "").endswith("Rand") and (cs_[0].fn.get("resolved") or cs_[0].fn).get("def") != shuffle.key and cs_[0].args[-1] in (("param", 2, I.names.get(2)), ("ref", vpl))
+            if fwd_ok:
+                col.ok("A2" + sfx, shuffle.loc(), "%s|forwards" % fk(shuffle), "forwards to the referent's shuffle on the same slice", nontrivial=False)
+                continue
+        backs = [s for l in I.backedge_states.values() for s in l]
+        writes_ok = True
+        shape_ok = False
+        for st in I.all_end_states():
+            for e in st.event_list():
+                if e.kind == "store" and any(s == vpl for s in [e.place] + list(subterms(e.place))):
                     writes_ok = False
-    if writes_ok:
-        col.ok("A2" + sfx, shuffle.loc(), "%s|writes-only-swap" % fk(shuffle), "the slice is modified only through <[T]>::swap: the multiset of elements is preserved")
-    else:
-        col.violation("A2" + sfx, "%s|writes-only-swap" % fk(shuffle), shuffle.loc(), "shuffle writes the slice other than by swapping two positions: the result need not be a rearrangement of the input")
-    rngok = False
-    for st in backs:
-        rng_iter = [v for v in st.env.values() if isinstance(v, tuple) and v and v[0] == "rangeiter"]
-        evs = st.event_list()
-        sw = [e for e in evs if e.kind == "call" and e.extra.get("name") == "swap"]
-        nx = [e for e in evs if e.kind == "call" and e.extra.get("name") == "next" and (e.extra.get("trait") or "").endswith("Rand")]
-        if not rng_iter and sw and nx and len(I.loops) == 1:
-            # manual counter: let mut i = 1; while i < len { ..; i += 1 }
-            head = list(I.loops)[0]
-            i = sw[0].args[1]
-            if i[0] == "phi" and i[1] == head:
-                il = i[2]
-                ent = [en.get(il) for en in I.loop_entry.get(head, [])]
-                step = st.env.get(il) == ("bin", "Add", i, mk_int(1))
-                guard = False
-                for f in st.facts:
-                    t = f[1]
-                    if f[0] == "eq" and isinstance(t, tuple) and t[0] == "bin":
-                        if (t[1] == "Lt" and f[2] == 1 and t[2] == i and t[3][0] == "len") or (t[1] == "Ge" and f[2] == 0 and t[2] == i and t[3][0] == "len") or (t[1] == "Gt" and f[2] == 1 and t[3] == i and t[2][0] == "len"):
-                            guard = True
-                # the loop exits only when i >= len: every final state after the loop has the negated guard
-                rngok = bool(ent) and all(x == mk_int(1) for x in ent) and step and guard
+                if e.kind == "call" and e.args and any(a == ("ref", vpl) for a in e.args):
+                    ty = e.extra["argtys"][list(e.args).index(("ref", vpl))]
+                    if ty.startswith("&mut") and e.extra.get("name") != "swap":
+                        writes_ok = False
+        if writes_ok:
+            col.ok("A2" + sfx, shuffle.loc(), "%s|writes-only-swap" % fk(shuffle), "the slice is modified only through <[T]>::swap: the multiset of elements is preserved")
+        else:
+            col.violation("A2" + sfx, "%s|writes-only-swap" % fk(shuffle), shuffle.loc(), "shuffle writes the slice other than by swapping two positions: the result need not be a rearrangement of the input")
+        rngok = False
+        for st in backs:
+            rng_iter = [v for v in st.env.values() if isinstance(v, tuple) and v and v[0] == "rangeiter"]
+            evs = st.event_list()
+            sw = [e for e in evs if e.kind == "call" and e.extra.get("name") == "swap"]
+            nx = [e for e in evs if e.kind == "call" and e.extra.get("name") == "next" and (e.extra.get("trait") or "").endswith("Rand")]
+            if not rng_iter and sw and nx and len(I.loops) == 1:
+                # manual counter: let mut i = 1; while i < len { ..; i += 1 }
+                head = list(I.loops)[0]
+                i = sw[0].args[1]
+                if i[0] == "phi" and i[1] == head:
+                    il = i[2]
+                    ent = [en.get(il) for en in I.loop_entry.get(head, [])]
+                    step = st.env.get(il) == ("bin", "Add", i, mk_int(1))
+                    guard = False
+                    for f in st.facts:
+                        t = f[1]
+                        if f[0] == "eq" and isinstance(t, tuple) and t[0] == "bin":
+                            if (t[1] == "Lt" and f[2] == 1 and t[2] == i and t[3][0] == "len") or (t[1] == "Ge" and f[2] == 0 and t[2] == i and t[3][0] == "len") or (t[1] == "Gt" and f[2] == 1 and t[3] == i and t[2][0] == "len"):
+                                guard = True
+                    # the loop exits only when i >= len: every final state after the loop has the negated guard
+                    rngok = bool(ent) and all(x == mk_int(1) for x in ent) and step and guard
+                    j = sw[0].args[2]
+                    a = nx[0].args[1]
+                    shape_ok = (j == nx[0].res or (nx[0].extra.get("uid") is not None and j == nx[0].res)) and a == ("rangeincl", mk_int(0), i)
+            if rng_iter and sw and nx:
+                r = rng_iter[0]
+                ln = r[2]
+                rngok = r[1] == mk_int(1) and ln[0] == "len" and r[3] == "fwd"
+                i = sw[0].args[1]
                 j = sw[0].args[2]
                 a = nx[0].args[1]
-                shape_ok = (j == nx[0].res or (nx[0].extra.get("uid") is not None and j == nx[0].res)) and a == ("rangeincl", mk_int(0), i)
-        if rng_iter and sw and nx:
-            r = rng_iter[0]
-            ln = r[2]
-            rngok = r[1] == mk_int(1) and ln[0] == "len" and r[3] == "fwd"
-            i = sw[0].args[1]
-            j = sw[0].args[2]
-            a = nx[0].args[1]
-            shape_ok = i[0] == "elem" and j == nx[0].res and a == ("rangeincl", mk_int(0), i)
-    if rngok:
-        col.ok("A2" + sfx, shuffle.loc(), "%s|loop-1..len" % fk(shuffle), "i ranges over 1..len")
-    else:
-        col.violation("A2" + sfx, "%s|loop-1..len" % fk(shuffle), shuffle.loc(), "the shuffle loop does not run i over 1..len")
-    if shape_ok:
-        col.ok("A2" + sfx, shuffle.loc(), "%s|partner-0..=i" % fk(shuffle), "swap(i, next(0..=i))")
-    else:
-        col.violation("A2" + sfx, "%s|partner-0..=i" % fk(shuffle), shuffle.loc(), "the swap partner is not drawn from 0..=i (an exclusive bound gives only cyclic permutations, 0..len gives a biased shuffle)")
+                shape_ok = i[0] == "elem" and j == nx[0].res and a == ("rangeincl", mk_int(0), i)
+        if rngok:
+            col.ok("A2" + sfx, shuffle.loc(), "%s|loop-1..len" % fk(shuffle), "i ranges over 1..len")
+        else:
+            col.violation("A2" + sfx, "%s|loop-1..len" % fk(shuffle), shuffle.loc(), "the shuffle loop does not run i over 1..len")
+        if shape_ok:
+            col.ok("A2" + sfx, shuffle.loc(), "%s|partner-0..=i" % fk(shuffle), "swap(i, next(0..=i))")
+        else:
+            col.violation("A2" + sfx, "%s|partner-0..=i" % fk(shuffle), shuffle.loc(), "the swap partner is not drawn from 0..=i (an exclusive bound gives only cyclic permutations, 0..len gives a biased shuffle)")
 
+    shuffle = default_shuffle
     # ---------------- A3
     _ranges(col, crate, impls, sfx)
 
